@@ -95,8 +95,11 @@ RULE = (
     "(random models over every builtin megacomplex, irf, shape, k-matrix, constraint, relation, penalty, weight, dataset "
     "group item + C02 scheme-generator models: save_model -> load_model, as_dict, applies on probes, objective vector), "
     "result (results of real optimisations saved under every SavingOptions combination to relative / absolute / nested / "
-    "dotted folders, after pre-saving components elsewhere, re-saved, loaded and re-saved, moved; result.yml / scheme.yml "
-    "references, source_path state, loaded content), netcdf (datasets of random shape, dtype, coordinate values incl. "
+    "dotted folders, after pre-saving components elsewhere, re-saved, loaded and re-saved, moved; results whose input data "
+    "was written to and loaded from measurement files before optimising (1-4 datasets that inherit the source_path of their "
+    "measurement file; saved with a data_filter in 2 of 3 saves; the measurement folder deleted before loading in half of the "
+    "cases; one uncached optimisation per case); result.yml / scheme.yml references, source_path state, loaded content; a "
+    "load_result that raises directly after save_result is a violation, not a crash), netcdf (datasets of random shape, dtype, coordinate values incl. "
     "NaN/inf/-0.0/subnormal/empty/strings), ascii (both formats x both dimension orders x non-square shapes), yaml (texts over number / "
     "word / indicator characters and a pool of look-alikes through ruamel's resolver; floats of every magnitude, ints of any size, None, "
     "bools, strings, string lists, numpy scalars through write_dict -> load_dict); every scheme.yml / result.yml of the scheme and result "
@@ -866,14 +869,19 @@ def gen_model(ck):
 _RESULT_CACHE: dict = {}
 
 
-def make_result(spec_case):
+def make_result(spec_case, P=None):
     """optimise once per base (cached per process) and hand out deep copies, so that the source_path state of one
-    history does not leak into the next.  spec_case: {"kind": "verif"|"builtin", "spec": ..., "max_nfev": n}"""
+    history does not leak into the next.  spec_case: {"kind": "verif"|"builtin", "spec": ..., "max_nfev": n}
+    With "input_files": folder (and "input_abs": bool) the input data is first written to <folder>/measurement_<i>.nc, read
+    back with load_dataset (the usual way data gets into a Scheme: the datasets know their file, attrs source_path/loader)
+    and optimised in place (no cache, no copy: the Result is exactly what `optimize` returns for data that came from files)."""
     import copy
+    from dataclasses import replace
     from glotaran.optimization.optimize import optimize
     from glotaran.project import Scheme
-    key = json.dumps(spec_case, sort_keys=True, default=str)
-    if key not in _RESULT_CACHE:
+    inp = spec_case.get("input_files")
+    key = json.dumps({k: v for k, v in spec_case.items() if k not in ("input_files", "input_abs")}, sort_keys=True, default=str)
+    if inp is not None or key not in _RESULT_CACHE:
         if spec_case["kind"] == "verif":
             gen_scheme.model_class()
             spec = dict(spec_case["spec"])
@@ -883,6 +891,16 @@ def make_result(spec_case):
             model, parameters, data = G.build_builtin(spec_case["spec"])
             scheme = Scheme(model=model, parameters=parameters, data=data,
                             maximum_number_function_evaluations=spec_case.get("max_nfev", 3))
+        if inp is not None:
+            from glotaran.io import load_dataset, save_dataset
+            folder = Path(P(inp, bool(spec_case.get("input_abs"))))
+            folder.mkdir(parents=True, exist_ok=True)
+            loaded = {}
+            for i, (l, dset) in enumerate(scheme.data.items()):
+                f = (folder / f"measurement_{i}.nc").as_posix()
+                save_dataset(dset, f, allow_overwrite=True)
+                loaded[l] = load_dataset(f)
+            return optimize(replace(scheme, data=loaded), verbose=False, raise_exception=True)
         _RESULT_CACHE[key] = optimize(scheme, verbose=False, raise_exception=True)
     return clone_result(_RESULT_CACHE[key])
 
@@ -1069,6 +1087,7 @@ def check_result(ck, case, batch):
          ["presave", what, path]         save a component of the scheme before optimising  (what: model|parameters|scheme|data)
          ["save", path, {"filter": None|[...], "report": bool, "pfmt": "csv"|..., "abs": bool}]
          ["move", src, dst]              move a folder
+         ["rm", folder]                  delete a folder (the input data of base["input_files"])
          ["load", path]                  load_result; the loaded Result becomes the current one
          ["chdir", path]"""
     from glotaran.io import (load_result, save_dataset, save_model, save_parameters, save_result, save_scheme, load_scheme)
@@ -1102,7 +1121,12 @@ def _check_result(ck, case, batch):
             return (Path(os.getcwd()) / p).as_posix() if absolute and not os.path.isabs(p) else p
 
         try:
-            result = make_result(case["base"])
+            result = make_result(case["base"], P)
+            if case["base"].get("input_files") is not None:
+                ck.count("result:input-data-loaded-from-files")
+                ck.count("result:input-files:datasets-" + str(min(len(result.data), 3)) + ("+" if len(result.data) > 3 else ""))
+                if all("source_path" in d.attrs for d in result.data.values()):
+                    ck.count("result:input-files:result-data-inherits-source_path")
         except Exception as e:
             ck.count("result:optimize-rejected-" + type(e).__name__)
             return
@@ -1140,6 +1164,8 @@ def _check_result(ck, case, batch):
             elif kind == "move":
                 Path(P(op[2])).parent.mkdir(parents=True, exist_ok=True)
                 shutil.move(P(op[1]), P(op[2]))
+            elif kind == "rm":              # the input data / an earlier copy is gone (a result folder must not need it)
+                shutil.rmtree(P(op[1]), ignore_errors=True)
             elif kind == "load":
                 try:
                     loaded = load_result(P(op[1]))
@@ -1225,8 +1251,13 @@ def _check_result(ck, case, batch):
                 batch.add(f"saveresult2 {last_save[0]} {enc(rf.parent.as_posix())} {enc(last_save[1])} {enc(last_save[2])} {last_save[3]}",
                           doc_text(rf.read_text()), "result-yml-document", "result.yml as written by save_result (keys, scalar texts, references)",
                           dict(case), cmp=doc_equiv)
+                try:
+                    reloaded = load_result(rf)
+                except Exception as e:      # a result that cannot be loaded right after it was saved: the statement fails (not a crash)
+                    ck.violation("load-result-raises", f"load_result({rf.name!r}) directly after save_result(..., {path!r}, {o}) raises {e!r}"[:400], case)
+                    return
                 batch.add(f"resultrt {last_save[0]} {enc(rf.parent.as_posix())} {enc(last_save[1])} {enc(last_save[2])} {last_save[3]}",
-                          lst(fv_list(load_result(rf))), "result-loaded-instance", "field values of load_result(save_result(r))", dict(case),
+                          lst(fv_list(reloaded)), "result-loaded-instance", "field values of load_result(save_result(r))", dict(case),
                           post=loaded_post(rf.parent))
                 for fname in STAT_FIELDS:
                     a = getattr(current, fname)
@@ -1237,9 +1268,19 @@ def _check_result(ck, case, batch):
                     ck.violation("result-source-path", f"result.source_path {current.source_path!r} after saving to {target!r}", case)
 
 
-def rand_result_case(rng, base):
+FILTERS = [None, None, ["fitted_data", "residual"], ["data"]]
+
+
+def rand_result_case(rng, base, inputs=False):
+    """inputs=True: the class "input data loaded from files" (base["input_files"]): the result datasets inherit the source_path
+    of the measurement files from `optimize`, are saved (more often with a data_filter than not), the measurement folder may be
+    deleted before the result is loaded"""
     ops = []
-    if rng.random() < 0.45:
+    in_folder = None
+    if inputs:
+        in_folder = rng.choice(["measured", "data/raw", "$ROOT/abs_data"])
+        base = dict(base, input_files=in_folder, input_abs=rng.random() < 0.4)
+    if rng.random() < (0.2 if inputs else 0.45):
         names = {"model": "m.yml", "parameters": "p.csv", "data": "d.nc", "scheme": "myscheme.yml"}
         whats = rng.sample(["model", "parameters", "data"], rng.randint(0, 3)) + (["scheme"] if rng.random() < 0.7 else [])
         folder = rng.choice(["in/", "in/sub/", "", "$ROOT/abs_in/"])
@@ -1253,18 +1294,21 @@ def rand_result_case(rng, base):
         folders += ["../sibling", "..", ".."]
     for i in range(rng.choice([1, 1, 2, 3])):
         path = rng.choice(folders)
-        o = {"filter": rng.choice([None, None, ["fitted_data", "residual"], ["data"]]), "report": rng.random() < 0.7,
+        o = {"filter": rng.choice(FILTERS[1:] + FILTERS[2:] if inputs else FILTERS), "report": rng.random() < 0.7,
              "pfmt": "csv", "abs": rng.random() < 0.25}
         ops.append(["save", path, o])
         is_file = path.endswith((".yml", ".yaml"))
         folder = str(Path(path).parent) if is_file else path
         r = rng.random()
         mode = "adopt" if rng.random() < 0.4 else "check"
+        gone = [["rm", in_folder if in_folder.startswith("$ROOT") else "$ROOT/" + in_folder]] if inputs and rng.random() < 0.5 else []
         if r < 0.5 and folder not in (".", ".."):
             dst = rng.choice(["moved", "elsewhere/deep/m", "$ROOT/abs_moved"]) + str(i)
             ops.append(["move", folder, dst])
+            ops += gone
             ops.append(["load", dst + ("/" + Path(path).name if is_file else ""), mode])
-        elif r < 0.85:
+        elif r < 0.85 or inputs:
+            ops += gone
             ops.append(["load", path, mode])
     return {"stream": "result", "base": base, "ops": ops}
 
@@ -1283,6 +1327,12 @@ def gen_result(ck):
     for b in bases:
         for _ in range(ck.n(4, 14)):
             yield rand_result_case(rng, b)
+    # the usual way a Result comes about: the input data was loaded from files (the result datasets then carry the source_path
+    # of the measurement before the first save_result; seeded change C17-8 left it in place for all but the last dataset of a
+    # filtered save).  Not cached: one optimisation per case.
+    for b in bases:
+        for _ in range(ck.n(2, 4)):
+            yield rand_result_case(rng, b, inputs=True)
 
 
 # ================================================================================================
